@@ -96,3 +96,9 @@ PROPS["C07"] = {
         {"name": "c07-contact-lifecycle", "pkg": ROOT, "run": "TestVerifC07", "timeout": {"quick": 1200, "thorough": 3400}},
     ],
 }
+PROPS["C03"] = {
+    "level": "exploration",
+    "units": [
+        {"name": "c03-forged-metadata", "pkg": ROOT, "run": "TestVerifC03", "timeout": {"quick": 1200, "thorough": 3400}},
+    ],
+}
